@@ -31,7 +31,9 @@ CONSTANTS Atoms,      \* the alphabet, a sequence of distinct names, e.g. <<"A",
           LongLens,   \* additional list lengths (a few patterns each), e.g. 5..9
           Templates,  \* list templates, e.g. {"vector", "other"}
           MaxPush,    \* push_front/push_back take 0..MaxPush types
-          MaxCases    \* switch_ has 1..MaxCases cases before the default
+          MaxCases,   \* switch_ has 1..MaxCases cases before the default
+          MaxComp,    \* two-deep compositions: every first operand of length 0..MaxComp (second operands: 0..3)
+          MaxMerge    \* merge_set rows: Len(first) + Len(second) <= MaxMerge
 
 VARIABLE last
 vars == <<last>>
@@ -129,9 +131,35 @@ Switch(cs, d)    == IF \E i \in DOMAIN cs : cs[i].c
                       ELSE d
 (* static_if<c>(tf, ff): calls exactly the selected callable, once, and returns *)
 (* what it returns (value and type, reference-ness preserved).                  *)
-StaticIf(c, t, f) == [val |-> IF c THEN t.val ELSE f.val, rt |-> IF c THEN t.rt ELSE f.rt,
+(* callable kinds: "int" (by value), "intref" (int&), "cref" (const int&), "str" (std::string), "nocopy" (a functor  *)
+(* that can be neither copied nor moved and returns int: static_if must take its callables by reference)            *)
+RetKind(k) == IF k = "nocopy" THEN "int" ELSE k
+StaticIf(c, t, f) == [val |-> IF c THEN t.val ELSE f.val, rt |-> RetKind(IF c THEN t.rt ELSE f.rt),
                       tcalls |-> IF c THEN 1 ELSE 0, fcalls |-> IF c THEN 0 ELSE 1]
 
+
+----------------------------------------------------------------------------
+(* Round 3: compositions two deep.  The result of a metafunction is a type   *)
+(* list (or a type) like any other, so "for every type list" covers the      *)
+(* output of another metafunction: the composition on the real templates     *)
+(* must equal the composition of the models.  Where the inner call has more  *)
+(* than one allowed result (merge_set with a repeated first operand) the     *)
+(* outer model is applied to each.                                           *)
+Range(s)   == {s[i] : i \in DOMAIN s}
+RECURSIVE SetToSeq(_)
+SetToSeq(S) == IF S = {} THEN <<>> ELSE LET x == CHOOSE y \in S : TRUE IN <<x>> \o SetToSeq(S \ {x})
+UniqueMerge(L1, L2)        == {Unique(m) : m \in Range(MergeSetAllowed(L1, L2))}
+SizeMerge(L1, L2)          == {Size(m) : m \in Range(MergeSetAllowed(L1, L2))}
+MergeUnique(L1, L2)        == MergeSet(Unique(L1), Unique(L2))
+IndexOfTransform(f, L, v)  == IndexOf(Transform(f, L), App(f, v))      \* v is the pre-image: the value searched for is f<v>
+CountTransform(f, L, v)    == Count(Transform(f, L), App(f, v))
+TransformTransform(f, g, L) == Transform(f, Transform(g, L))
+UniqueTransform(f, L)      == Unique(Transform(f, L))
+FindIfUnique(p, L)         == FindIf(p, Unique(L))
+IndexOfUnique(L, v)        == IndexOf(Unique(L), v)
+ContainsPopFront(L, v)     == Contains(PopFront(L), v)
+CastTransform(f, L, B)     == Cast(Transform(f, L), B)
+UniquePush(L, ts)          == Unique(PushBack(L, ts))
 ----------------------------------------------------------------------------
 (* Argument domains of the model checker                                    *)
 SeqsUpTo(S, n) == UNION {[1..m -> S] : m \in 0..n}
@@ -147,7 +175,14 @@ PushArgs   == SeqsUpTo({T(Atoms[1]), T(Atoms[Len(Atoms)]), T(Probe)}, MaxPush)
 CastTo     == {"vector", "other", "tuple"}
 Lazy       == {Tm("id", <<t>>) : t \in AtomTerms} \cup {T("notype")}
 Cases      == UNION {[1..m -> [c : BOOLEAN, t : AtomTerms]] : m \in 1..MaxCases}
-Callables  == {[val |-> 10, rt |-> "int"], [val |-> 20, rt |-> "intref"], [val |-> 30, rt |-> "str"]}
+Callables  == {[val |-> 10, rt |-> "int"], [val |-> 20, rt |-> "intref"], [val |-> 30, rt |-> "str"],
+               [val |-> 40, rt |-> "cref"], [val |-> 50, rt |-> "nocopy"]}
+CompLists      == {Tm(tm, s) : tm \in Templates, s \in SeqsUpTo(AtomTerms, MaxComp)}
+CompLists2(tm) == {Tm(tm, s) : s \in SeqsUpTo(AtomTerms, 3)}
+(* std::add_pointer_t is a term constructor here, but NOT injective on C++ types (int and a reference to int both give pointer to int): rows *)
+(* whose answer depends on whether two transformed elements are the same type leave it out.                        *)
+EqFuns         == Funs \ {"ptr"}
+InjFuns        == {"W", "W2", "tuple1", "rot"}                 \* injective on Values, in the model and in C++
 
 ----------------------------------------------------------------------------
 (* Actions: one per metafunction                                            *)
@@ -171,7 +206,7 @@ DoCast(L, B)        == Call("Cast", [l |-> L, b |-> B], One(Cast(L, B)))
 DoSplit(n, L)       == n <= Len(L.a) /\
                        Call("Split", [l |-> L, n |-> n], One([first |-> SplitFirst(n, L), second |-> SplitSecond(n, L)]))
 DoUnique(L)         == Call("Unique", [l |-> L], One(Unique(L)))
-DoMergeSet(L1, L2)  == L1.n = L2.n /\ Call("MergeSet", [l |-> L1, l2 |-> L2], MergeSetAllowed(L1, L2))
+DoMergeSet(L1, L2)  == L1.n = L2.n /\ (Len(L1.a) + Len(L2.a) <= MaxMerge \/ Len(L1.a) > MaxLen) /\ Call("MergeSet", [l |-> L1, l2 |-> L2], MergeSetAllowed(L1, L2))
 DoPlus(ns)          == Call("Plus", [ns |-> ns], One(Plus(ns)))
 DoIf(b, t, f)       == Call("If", [b |-> b, t |-> t, f |-> f], One(IfT(b, t, f)))
 DoEvalIf(b, t, f)   == (IF b THEN t ELSE f).n = "id" /\
@@ -179,6 +214,27 @@ DoEvalIf(b, t, f)   == (IF b THEN t ELSE f).n = "id" /\
 DoSwitch(cs, d)     == Call("Switch", [cases |-> cs, d |-> d], One(Switch(cs, d)))
 (* form: "tmpl" = static_if<c>(tf, ff), "tag" = static_if(std::integral_constant<bool, c>(), tf, ff) *)
 DoStaticIf(c, form, t, f) == Call("StaticIf", [c |-> c, form |-> form, t |-> t, f |-> f], One(StaticIf(c, t, f)))
+
+(* compositions *)
+DoUniqueMerge(L1, L2)       == L1.n = L2.n /\ Call("UniqueMerge", [l |-> L1, l2 |-> L2], SetToSeq(UniqueMerge(L1, L2)))
+DoSizeMerge(L1, L2)         == L1.n = L2.n /\ Call("SizeMerge", [l |-> L1, l2 |-> L2], SetToSeq(SizeMerge(L1, L2)))
+DoMergeUnique(L1, L2)       == L1.n = L2.n /\ Call("MergeUnique", [l |-> L1, l2 |-> L2], One(MergeUnique(L1, L2)))
+DoIndexOfTransform(f, L, v) == Call("IndexOfTransform", [l |-> L, f |-> f, v |-> v], One(IndexOfTransform(f, L, v)))
+DoCountTransform(f, L, v)   == Call("CountTransform", [l |-> L, f |-> f, v |-> v], One(CountTransform(f, L, v)))
+DoTransformTransform(f, g, L) == Call("TransformTransform", [l |-> L, f |-> f, g |-> g], One(TransformTransform(f, g, L)))
+DoUniqueTransform(f, L)     == Call("UniqueTransform", [l |-> L, f |-> f], One(UniqueTransform(f, L)))
+DoFindIfUnique(p, L)        == Call("FindIfUnique", [l |-> L, p |-> p], One(FindIfUnique(p, L)))
+DoIndexOfUnique(L, v)       == Call("IndexOfUnique", [l |-> L, v |-> v], One(IndexOfUnique(L, v)))
+DoContainsPopFront(L, v)    == L.a # <<>> /\ Call("ContainsPopFront", [l |-> L, v |-> v], One(ContainsPopFront(L, v)))
+DoCastTransform(f, L, B)    == Call("CastTransform", [l |-> L, f |-> f, b |-> B], One(CastTransform(f, L, B)))
+DoUniquePush(L, ts)         == Call("UniquePush", [l |-> L, ts |-> ts], One(UniquePush(L, ts)))
+DoFrontPopFront(L)          == Len(L.a) >= 2 /\ Call("FrontPopFront", [l |-> L], One(Front(PopFront(L))))
+DoBackPushBack(L, ts)       == ts # <<>> /\ Call("BackPushBack", [l |-> L, ts |-> ts], One(Back(PushBack(L, ts))))
+DoPopPush(L, ts)            == Len(ts) = 1 /\ Call("PopPush", [l |-> L, ts |-> ts], One(PopFront(PushFront(L, ts))))
+(* advisory (not named by the statement): void_t<T...> is void for every pack; the TYPE of the value members *)
+DoVoidT(L)                  == Call("VoidT", [l |-> L], One(T("void")))
+DoValueKind(L)              == Call("ValueKind", [l |-> L], One([sizes |-> "size_t", bools |-> "bool"]))
+DoPlusMixed(bs, ns)         == Call("PlusMixed", [bs |-> bs, ns |-> ns], One(SumSeq(ns) + Cardinality({i \in DOMAIN bs : bs[i]})))
 
 Init == last = [op |-> "Init", a |-> [z |-> 0], res |-> <<>>]
 
@@ -192,7 +248,18 @@ Next == /\ last.op = "Init"
                  \/ \E B \in CastTo : DoCast(L, B)
                  \/ \E n \in 0..Len(L.a) : DoSplit(n, L)
                  \/ \E L2 \in Lists2(L.n) : DoMergeSet(L, L2)
-           \/ \E ns \in SeqsUpTo({0, 1, 7}, MaxLen) : DoPlus(ns)
+           \/ \E L \in CompLists :
+                 \/ DoFrontPopFront(L) \/ DoVoidT(L) \/ DoValueKind(L)
+                 \/ \E L2 \in CompLists2(L.n) : DoUniqueMerge(L, L2) \/ DoSizeMerge(L, L2) \/ DoMergeUnique(L, L2)
+                 \/ \E f \in EqFuns, v \in Values : DoIndexOfTransform(f, L, v) \/ DoCountTransform(f, L, v)
+                 \/ \E f, g \in Funs : DoTransformTransform(f, g, L)
+                 \/ \E f \in EqFuns : DoUniqueTransform(f, L)
+                 \/ \E f \in Funs, B \in CastTo : DoCastTransform(f, L, B)
+                 \/ \E p \in Preds : DoFindIfUnique(p, L)
+                 \/ \E v \in Values : DoIndexOfUnique(L, v) \/ DoContainsPopFront(L, v)
+                 \/ \E ts \in PushArgs : DoUniquePush(L, ts) \/ DoBackPushBack(L, ts) \/ DoPopPush(L, ts)
+           \/ \E bs \in SeqsUpTo(BOOLEAN, 2), ns \in SeqsUpTo({0, 7}, 2) : DoPlusMixed(bs, ns)
+           \/ \E ns \in SeqsUpTo({0, 1, 7}, IF MaxLen > 4 THEN 4 ELSE MaxLen) : DoPlus(ns)
            \/ \E b \in BOOLEAN, t, f \in AtomTerms : DoIf(b, t, f)
            \/ \E b \in BOOLEAN, t, f \in Lazy : DoEvalIf(b, t, f)
            \/ \E cs \in Cases, d \in AtomTerms : DoSwitch(cs, d)
@@ -243,5 +310,29 @@ MergeLaws ==
         /\ IsSet(L.a) => IsSet(M.a) /\ M.a = UniqueSeq(L.a \o L2.a)
         /\ IsSet(SubSeq(M.a, Len(L.a) + 1, Len(M.a)))
 
-Laws == ListLaws /\ MergeLaws
+(* Round 3: laws of the compositions (they relate the composed models to the single ones) *)
+CompLaws ==
+    \A L \in CompLists :
+        /\ \A f \in InjFuns : \A v \in Values :
+              /\ IndexOfTransform(f, L, v) = IndexOf(L, v)               \* an injective f moves no position
+              /\ CountTransform(f, L, v) = Count(L, v)
+        /\ \A v \in Values : /\ CountTransform("const1", L, v) = Size(L)
+                             /\ IndexOfTransform("const1", L, v) = (IF Empty(L) THEN NPOS ELSE 0)
+                             /\ (IndexOfUnique(L, v) = NPOS) <=> (IndexOf(L, v) = NPOS)
+                             /\ IndexOfUnique(L, v) <= IndexOf(L, v)
+                             /\ L.a # <<>> => (Contains(L, v) <=> (ContainsPopFront(L, v) \/ Front(L) = v))
+        /\ UniqueTransform("const1", L).a = (IF Empty(L) THEN <<>> ELSE <<T(Atoms[1])>>)
+        /\ \A f \in InjFuns : UniqueTransform(f, L) = Transform(f, Unique(L))
+        /\ \A f, g \in Funs : Size(TransformTransform(f, g, L)) = Size(L)
+        /\ TransformTransform("const1", "W", L) = Transform("const1", L)
+        /\ \A p \in Preds : /\ FindIfUnique(p, L) <= FindIf(p, L)
+                            /\ (FindIfUnique(p, L) = Size(Unique(L))) <=> (FindIf(p, L) = Size(L))
+        /\ \A ts \in PushArgs : UniquePush(L, ts) = MergeSet(Unique(L), Tm(L.n, ts))
+        /\ \A L2 \in CompLists2(L.n) :
+              /\ UniqueMerge(L, L2) = {Unique(PushBack(L, L2.a))}       \* whichever reading of merge_set: the same set
+              /\ MergeUnique(L, L2) = Unique(PushBack(L, L2.a))
+              /\ \A n \in SizeMerge(L, L2) : n <= Size(L) + Size(L2) /\ n >= Size(Unique(L))
+              /\ IsSet(L.a) => SizeMerge(L, L2) = {Size(MergeUnique(L, L2))}
+
+Laws == ListLaws /\ MergeLaws /\ CompLaws
 =============================================================================
